@@ -48,7 +48,8 @@ impl_display_by_debug!(MonitorState);
 #[repr(C)]
 #[derive(Debug)]
 pub(crate) struct Monitor {
-    notify_queue: UnsafeCell<HashSet<NotifyNode>>,
+    // shared by the scheduling threads (insert/remove on every state change) and the monitor thread
+    notify_queue: std::sync::Mutex<HashSet<NotifyNode>>,
     state: Cell<MonitorState>,
     thread: UnsafeCell<MaybeUninit<JoinHandle<()>>>,
     blocker: Arc<CondvarBlocker>,
@@ -57,7 +58,7 @@ pub(crate) struct Monitor {
 impl Default for Monitor {
     fn default() -> Self {
         Monitor {
-            notify_queue: UnsafeCell::default(),
+            notify_queue: std::sync::Mutex::default(),
             state: Cell::new(MonitorState::Created),
             thread: UnsafeCell::new(MaybeUninit::uninit()),
             blocker: Arc::default(),
@@ -176,13 +177,25 @@ impl Monitor {
     fn monitor_thread_main() {
         let monitor = Self::get_instance();
         Self::init_current(monitor);
-        let notify_queue = unsafe { &*monitor.notify_queue.get() };
-        while MonitorState::Running == monitor.state.get() || !notify_queue.is_empty() {
+        loop {
             //只遍历，不删除，如果抢占调度失败，会在1ms后不断重试，相当于主动检测
-            for node in notify_queue {
-                if now() < node.timestamp {
-                    continue;
+            // (the due nodes are copied out under the lock, the signals are sent without it)
+            let due: Vec<NotifyNode> = {
+                let notify_queue = monitor
+                    .notify_queue
+                    .lock()
+                    .unwrap_or_else(std::sync::PoisonError::into_inner);
+                if MonitorState::Running != monitor.state.get() && notify_queue.is_empty() {
+                    break;
                 }
+                let now = now();
+                notify_queue
+                    .iter()
+                    .filter(|node| now >= node.timestamp)
+                    .copied()
+                    .collect()
+            };
+            for node in &due {
                 //实际上只对陷入重度计算的协程发送信号抢占
                 //对于陷入执行系统调用的协程不发送信号(如果发送信号，会打断系统调用，进而降低总体性能)
                 cfg_if::cfg_if! {
@@ -329,7 +342,10 @@ impl Monitor {
     fn submit(timestamp: u64) -> std::io::Result<NotifyNode> {
         let instance = Self::get_instance();
         instance.start()?;
-        let queue = unsafe { &mut *instance.notify_queue.get() };
+        let mut queue = instance
+            .notify_queue
+            .lock()
+            .unwrap_or_else(std::sync::PoisonError::into_inner);
         cfg_if::cfg_if! {
             if #[cfg(unix)] {
                 let node = NotifyNode {
@@ -346,14 +362,18 @@ impl Monitor {
             }
         }
         _ = queue.insert(node);
+        drop(queue);
         instance.blocker.notify();
         Ok(node)
     }
 
     fn remove(node: &NotifyNode) -> bool {
         let instance = Self::get_instance();
-        let queue = unsafe { &mut *instance.notify_queue.get() };
-        queue.remove(node)
+        instance
+            .notify_queue
+            .lock()
+            .unwrap_or_else(std::sync::PoisonError::into_inner)
+            .remove(node)
     }
 }
 
